@@ -35,7 +35,9 @@ func checkC12(c *Ctx, e *Env) {
 	p := m.P
 	noteUndecided(c, m, r, "C12.E1")
 	importObligations(c, e, checkC06, "C06", "C12.ESCROW", "escrow-covers-open-orders", "the begin-block refund subtracts every expired order from its seller's escrow; it cannot fail only while escrow equals the sum of the open orders", func(o *Oblig) bool { return o.Rule == "C06.EQ" })
-	ruleArith(c, e, "C12.ARITH", func(ep *EntryPoint) bool { return ep.Service == "marketplace" && (ep.Kind == "msg" || ep.Kind == "beginblock") })
+	ruleArith(c, e, "C12.ARITH", func(ep *EntryPoint) bool {
+		return ep.Service == "marketplace" && (ep.Kind == "msg" || ep.Kind == "beginblock")
+	})
 	h := r.byKey["marketplace.PruneSellOrders"]
 	if h == nil {
 		c.Undecide("C12.E1", "PruneSellOrders", "-", "prune function not found")
